@@ -46,7 +46,7 @@ ASSUME = ["refs/kfref.py (textbook Kalman equations, scaled unscented transform 
           "numpy cholesky/eigvalsh/solve are trusted; rounding bounds are first order with calibrated constant C_TOL"]
 SHARDS = {"quick": 4, "thorough": 16}
 BUDGET_S = {"quick": 80, "thorough": 540}
-DECIDING = ["weights_sum_one", "pred_eq_kf", "post_eq_kf", "post_eq_noredraw", "post_identity", "post_le_prior", "cov_sym_psd",
+DECIDING = ["weights_sum_one", "sigma_span", "pred_eq_kf", "post_eq_kf", "post_eq_noredraw", "post_identity", "post_le_prior", "cov_sym_psd",
             "noobs_mean", "result_roundtrip"]
 MANIFEST = {"technique": "runtime monitoring: real UnscentedKalmanFilter on stub linear systems, lock-step comparison with a textbook Kalman filter",
             "level_text": "held on every sequence explored (counts in evidence); tolerances are per-step first-order rounding bounds",
@@ -646,8 +646,70 @@ def _finish_case(ctx, spec, stats, idx):
     ctx.add_to_set("kappa_kinds", str(spec["kappa"]) if spec["kappa"] in (None, 0.0, 1.0) else "3-n")
 
 
+def chk_sigma_span(ctx, rng, only=None):
+    """Postcondition on the real ``generateSigmaPoints``: the 2n+1 points are the mean and mean +- gamma * s_i with
+    sum_i s_i s_i^T = cov.  Covers positive-definite covariances and, with the library's documented fallback switched on
+    (debugging.NearestPD), positive semi-definite singular ones (the property admits semi-definite covariances)."""
+    import os
+    import shutil
+    import tempfile
+
+    from resonaate.common.behavioral_config import BehavioralConfig
+
+    if only is None:
+        n = int(rng.integers(1, 7))
+        rank = n if rng.random() < 0.5 else int(rng.integers(1, n + 1))
+        a = rng.normal(size=(n, rank)) * 10.0 ** rng.uniform(-3, 2)
+        cov = a @ a.T
+        if rank == n and rng.random() < 0.3:
+            cov = np.diag(np.diag(cov))
+        w = {"kind": "sigma_span", "n": n, "rank": rank, "cov": cov.tolist(), "mean": (rng.normal(size=n) * 100.0).tolist(), "alpha": float(rng.choice([1e-3, 0.1, 1.0])), "kappa": float(rng.choice([0.0, 1.0, 3.0 - n]))}
+    else:
+        w = only
+    n, cov, mean = w["n"], np.array(w["cov"], dtype=float), np.array(w["mean"], dtype=float)
+    if n + w["kappa"] <= 0:
+        w["kappa"] = 0.0
+    f = st.make_ukf(mean, np.eye(n), st.linear_dynamics(np.eye(n)), np.zeros((n, n)), True, w["alpha"], 2.0, w["kappa"])
+    dbg = BehavioralConfig.getConfig().debugging
+    old = (dbg.NearestPD, dbg.OutputDirectory)
+    d = tempfile.mkdtemp(prefix="rvmon-c06-")
+    fallback = False
+    try:
+        try:
+            np.linalg.cholesky(cov)
+        except np.linalg.LinAlgError:
+            fallback = True
+        dbg.NearestPD, dbg.OutputDirectory = True, os.path.join(d, "debugging")
+        try:
+            sp = np.array(f.generateSigmaPoints(mean, cov), dtype=float)
+        except np.linalg.LinAlgError:
+            ctx.count("sigma_span_fallback_raised")
+            return
+    finally:
+        dbg.NearestPD, dbg.OutputDirectory = old
+        shutil.rmtree(d, ignore_errors=True)
+    g = float(f.gamma)
+    ok_shape = sp.shape == (n, 2 * n + 1)
+    ctx.check(ok_shape, "sigma-points-shape", f"generateSigmaPoints returned shape {sp.shape} for n={n}", w, mon="sigma_span")
+    if not ok_shape:
+        return
+    plus, minus = (sp[:, 1:n + 1] - mean[:, None]) / g, (sp[:, n + 1:] - mean[:, None]) / g
+    scale = max(_n2(cov), 1e-300)
+    # dividing the stored points by gamma again costs eps*|mean|/gamma per component; the nearest-PD substitute moves cov by ~1e-15 |cov|
+    slack = 64 * n * EPS * (scale + float(np.linalg.norm(mean)) ** 2 / (g * g) + float(np.linalg.norm(mean)) * math.sqrt(scale) / g) + (1e-12 * scale if fallback else 0.0)
+    err = _mx(plus @ plus.T - cov)
+    ctx.check(np.array_equal(sp[:, 0], mean) and _mx(plus + minus) <= 64 * EPS * (math.sqrt(scale) + float(np.linalg.norm(mean)) / g) and err <= slack,
+              "sigma-points-do-not-span-cov" + ("-nearest-pd-fallback" if fallback else ""),
+              f"n={n} rank={w['rank']}: sum of (sigma_i - mean)(sigma_i - mean)^T / gamma^2 differs from the covariance by {err:.3e} (allowed {slack:.3e}, |cov|={scale:.3e}; "
+              f"nearest-PD fallback used: {fallback}); symmetric pairs differ by {_mx(plus + minus):.3e}", w, mon="sigma_span")
+    if fallback:
+        ctx.count("sigma_span_cases_through_nearest_pd_fallback")
+
+
 def run(ctx):
     rng = ctx.rng("c06")
+    for _ in range(ctx.scale(300, 20_000)):
+        chk_sigma_span(ctx, rng)
     if ctx.shard == 0:
         for i, spec in enumerate(edge_sequences()):
             _finish_case(ctx, spec, run_sequence(ctx, spec), 1 + i)
@@ -666,6 +728,9 @@ def run(ctx):
 
 
 def replay(ctx, w):
+    if w.get("kind") == "sigma_span":
+        chk_sigma_span(ctx, np.random.default_rng(0), only=w)
+        return
     if w.get("kind") == "noise":
         chk_noise(ctx, np.random.default_rng(0), only=w)
         return
